@@ -139,6 +139,9 @@ def check(run, replay):
             key = K_DSEP if dsep else (K_ROOT if under else "iter:%s:%s" % (c[0].hex(), c[1].hex()))
             if key not in seen_classes or len(raw) < len(seen_classes[key][0]):
                 seen_classes[key] = (raw, c, i, s)
+    unclassified = sorted((k for k in seen_classes if k not in (K_DSEP, K_ROOT)), key=lambda k: (len(seen_classes[k][0]), k))
+    for k in unclassified[3:]:
+        del seen_classes[k]
     for key, (raw, c, i, s) in sorted(seen_classes.items()):
         run.violation(key, "PathIterator(%r, %r).read() = %s but the documented canonical form is %s" % (c[0], c[1], vlib.show(i), vlib.show(s)),
                       {"input": {"a": vlib.show(c[0]), "b": vlib.show(c[1])}, "impl": vlib.show(i), "spec": vlib.show(s),
@@ -205,7 +208,9 @@ def check(run, replay):
             else:
                 key = "pmspec:%s:%s:%s:%s" % (c[0].hex(), c[1].hex(), c[2].hex(), c[3].decode())
             classes.setdefault(key, []).append((c, i, s))
-        for key, lst in sorted(classes.items())[:6]:
+        # the three classes first, then the smallest unclassified inputs
+        order = sorted(classes.items(), key=lambda kv: (0, kv[0]) if kv[0] in (K_STAR, K_DSEP, K_ROOT) else (1, size(min(kv[1], key=size))))
+        for key, lst in order[:6]:
             c, i, s = min(lst, key=size)
             why = {K_STAR: " (a '?' or '*' directly before a '*' in the pattern)",
                    K_DSEP: " (the iterator drops the separator at an inner '//')",
@@ -265,7 +270,7 @@ def select_stream(run, rng, model, vh, scratch, ntrees, per_tree):
             nign = rng.choice([0, 1, 1, 2, 3])
             ign = [G.gen_pattern_for(rng, paths) for _ in range(nign)]
             # harness: FileLister::recursiveAddFiles(abs path, PathMatch(ign, cwd))
-            d = rng.choice(dirs)
+            d = b"top" if rng.random() < 0.6 else rng.choice(dirs)
             node = G.subtree(tree, d.split(b"/")[1:])
             form = rng.choice([b"%s", b"%s/", b"%s//", b"%s/."])
             lister_cases.append([cwd + b"/" + (form % d)] + G.tree_fields(node) + [cwd, str(len(ign)).encode()] + ign)
@@ -273,7 +278,7 @@ def select_stream(run, rng, model, vh, scratch, ntrees, per_tree):
             nin = rng.choice([1, 1, 1, 2])
             inputs = []
             for _ in range(nin):
-                p, isdir = rng.choice(paths) if rng.random() < 0.25 else (rng.choice(dirs), True)
+                p, isdir = rng.choice(paths) if rng.random() < 0.25 else ((b"top" if rng.random() < 0.6 else rng.choice(dirs)), True)
                 if not isdir and not G_accepted(p):
                     continue
                 f = rng.choice([b"%s", b"%s", b"./%s", b"%s/"]) if isdir else rng.choice([b"%s", b"./%s"])
